@@ -271,6 +271,20 @@ def place_chops(rs: Stream, geo: Dict[str, Any], opts: Dict[str, Any]) -> Dict[s
             if any(s.get("preserve") in ("start_size", "end_size") for s in secs):
                 meta["preserve"] += 1
             chops.append({"block": refblocks[bi].name, "axis": a, "sections": secs})
+        elif rs.sub("ratio_twins", r).chance(0.12):
+            # several sources with two sections each: the same counts, no expansion, but the sections split the
+            # edge differently (blocks between them take each edge from whichever source owns it)
+            meta["multi_source"] += 1
+            meta["diff_expansion"] += 1
+            meta["multi_section"] += 1
+            tr = rs.sub("ratio_twins", r, "v")
+            n1, n2 = tr.randint(2, 4), tr.randint(2, 4)
+            for (bi, a, par) in srcs:
+                f1 = tr.pick([0.3, 0.4, 0.5, 0.6, 0.7])
+                secs = [{"count": n1, "length_ratio": f1}, {"count": n2, "length_ratio": round(1 - f1, 6)}]
+                if par:
+                    secs = [{"count": n2, "length_ratio": round(1 - f1, 6)}, {"count": n1, "length_ratio": f1}]
+                chops.append({"block": refblocks[bi].name, "axis": a, "sections": secs})
         else:
             meta["multi_source"] += 1
             n = rs.randint(2, 8)
